@@ -923,10 +923,14 @@ class Interp:
                 full.append(args[i])
             elif kwargs and p in kwargs:
                 full.append(kwargs[p])
+            elif self.prog.is_unpassed_new_param(fi, p):
+                full.append(_USE_DEFAULT)  # an option newer than the rules that no caller supplies: its default
             else:
                 full.append(Poly.atom(("v", "P%d" % i)))
         kw = {}
         for a in node.args.kwonlyargs:
+            if not (kwargs or {}).get(a.arg) and self.prog.is_unpassed_new_param(fi, a.arg):
+                continue
             kw[a.arg] = (kwargs or {}).get(a.arg, Poly.atom(("v", "K_" + a.arg)))
         Event.prefix = ()
         return _interp_run_with_env(self, fi, full, kw, self_cls, {})
@@ -2554,6 +2558,9 @@ def _run_inlined(interp, fi, args, kwargs, self_cls, st):
     return res, final
 
 
+_USE_DEFAULT = object()
+
+
 def _interp_run_with_env(interp, fi, args, kwargs, self_cls, carried):
     node = fi.node
     params = [a.arg for a in node.args.posonlyargs + node.args.args]
@@ -2563,7 +2570,7 @@ def _interp_run_with_env(interp, fi, args, kwargs, self_cls, carried):
     ndef = len(defaults)
     frame = Frame(interp, fi, self_cls or fi.cls)
     for i, p in enumerate(params):
-        if i < len(args):
+        if i < len(args) and args[i] is not _USE_DEFAULT:
             env[p] = args[i]
         elif p in kwargs:
             env[p] = kwargs.pop(p)
